@@ -163,10 +163,17 @@ def _immutable(e):
     if isinstance(e, ast.UnaryOp) and isinstance(e.op, (ast.USub, ast.UAdd)) and isinstance(e.operand, ast.Constant):
         return True
     if isinstance(e, ast.Tuple):
-        return all(_immutable(x) for x in e.elts)
+        return all(_immutable(x) or _type_ref(x) for x in e.elts)
     if isinstance(e, ast.BinOp) and isinstance(e.op, ast.Add) and isinstance(e.left, ast.Constant) and isinstance(e.right, ast.Constant):
         return True
     return False
+
+
+def _type_ref(e):
+    """a (dotted) name inside a constant tuple - e.g. the classes of an isinstance tuple"""
+    while isinstance(e, ast.Attribute):
+        e = e.value
+    return isinstance(e, ast.Name)
 
 
 SAFE_TABLE_METHODS = {'get', 'items', 'keys', 'values', 'index', 'count'}
@@ -749,6 +756,21 @@ def _propagate_locals(fn, ctx):
         free = _free_names(val) - {name}
         if isinstance(val, ast.Lambda):
             free -= {x.arg for x in val.args.args}
+        if kind == 'ref' and isinstance(val, ast.Attribute) and info.order.get(id(asg)) is not None:
+            # a temporary for an attribute read that is consumed by the very next statement (also inside loops)
+            plan2 = _attr_temp_uses(info, asg, loads)
+            if plan2 is not None:
+                ids2 = {id(x) for x in plan2}
+
+                class Sub2(ast.NodeTransformer):
+                    def visit_Name(self, n):
+                        if id(n) in ids2:
+                            return ast.copy_location(copy.deepcopy(val), n)
+                        return n
+                Sub2().visit(fn)
+                _remove_stmt(fn, asg)
+                ast.fix_missing_locations(fn)
+                return True
         if not info.stable_after(free, asg):
             continue
         at = info.order.get(id(asg))
@@ -803,12 +825,20 @@ def _propagate_locals(fn, ctx):
                     plan.append(ld)
                 else:
                     rest += 1
-        if kind == 'ref':
-            # an alias is only worth (and only safe as a normal form) when every use is of the aggregate / callable kind
+        if kind == 'ref' and isinstance(val, ast.Name):
+            # x = t  (x bound once, t not re-bound afterwards): x is another name for t - every later read of x reads t
+            late = [ld for ld in loads if info.order.get(info.owner.get(id(ld)), -1) > at]
+            if len(late) != len(loads):
+                continue
+            plan, rest = late, 0
+        elif kind == 'ref':
             if rest or not plan:
-                continue
-            if isinstance(val, ast.Name) and not (info.counts.get(val.id, 0) <= 1):
-                continue
+                # t = obj.attr read into a temporary that is used only by the statement that follows (its test / its first statement): the attribute is
+                # read there instead - nothing can change it in between
+                plan2 = _attr_temp_uses(info, asg, loads)
+                if plan2 is None:
+                    continue
+                plan, rest = plan2, 0
             # subscript stores through the alias would write the aliased object: fine (same object), but keep Store contexts intact
         if not plan:
             continue
@@ -827,6 +857,46 @@ def _propagate_locals(fn, ctx):
         ast.fix_missing_locations(fn)
         return True         # one rewrite per call: positions / parents are stale afterwards
     return False
+
+
+def _attr_temp_uses(info, asg, loads):
+    """the loads of a temporary `t = <attribute chain>` when all of them sit in the statement right after the assignment - in a simple statement, or in the
+    test and the first body statement of an `if` whose test has no calls - and that statement does not store to an attribute of the same name first"""
+    blk = None
+    for n in ast.walk(info.fn):
+        for fld in ('body', 'orelse', 'finalbody'):
+            v = getattr(n, fld, None)
+            if isinstance(v, list) and any(x is asg for x in v):
+                blk = v
+    if blk is None:
+        return None
+    i = [j for j, x in enumerate(blk) if x is asg][0]
+    if i + 1 >= len(blk):
+        return None
+    nxt = blk[i + 1]
+    allowed = set()
+    if isinstance(nxt, (ast.Assign, ast.AugAssign, ast.Expr, ast.Return, ast.Raise, ast.Assert)):
+        allowed = {id(x) for x in ast.walk(nxt)}
+        # the use must come before any call in the same statement could change the attribute: accept when the temp is the callee or an argument
+    elif isinstance(nxt, ast.If) and _test_pure(nxt.test):
+        allowed = {id(x) for x in ast.walk(nxt.test)}
+        for br in (nxt.body, nxt.orelse):
+            if br and isinstance(br[0], (ast.Assign, ast.AugAssign, ast.Expr, ast.Return)):
+                allowed |= {id(x) for x in ast.walk(br[0])}
+    else:
+        return None
+    if not all(id(ld) in allowed for ld in loads):
+        return None
+    attr = asg.value.attr
+    free = {n.id for n in ast.walk(asg.value) if isinstance(n, ast.Name)}
+    for x in ast.walk(nxt):
+        if isinstance(x, ast.Attribute) and x.attr == attr and isinstance(x.ctx, (ast.Store, ast.Del)):
+            return None
+        if isinstance(x, ast.Name) and x.id in free and isinstance(x.ctx, (ast.Store, ast.Del)):
+            return None
+    if not loads or info.counts.get(asg.targets[0].id, 0) != 1:
+        return None
+    return list(loads)
 
 
 def _record_dicts(fn):
@@ -1136,6 +1206,29 @@ def _bool_flags(fn):
                     ast.fix_missing_locations(prev)
                     changed[0] = True
                     continue
+            # if c: f = True / else: f = B    ->  f = c or B     (c boolean valued; one arm a boolean constant: exact for any other arm)
+            if isinstance(s, ast.If) and len(s.body) == 1 and len(s.orelse) == 1 and all(isinstance(x, ast.Assign) and len(x.targets) == 1 and isinstance(x.targets[0], ast.Name)
+                                                                                       for x in (s.body[0], s.orelse[0])) \
+                    and s.body[0].targets[0].id == s.orelse[0].targets[0].id and _boolish(s.test) and _test_pure(s.test):
+                f = s.body[0].targets[0].id
+                A, B, c = s.body[0].value, s.orelse[0].value, s.test
+                isb = lambda e: isinstance(e, ast.Constant) and isinstance(e.value, bool)
+                mentions_f = any(isinstance(n, ast.Name) and n.id == f for e in (A, B, c) for n in ast.walk(e))
+                new = None
+                if not mentions_f and (isb(A) or isb(B)) and not (isb(A) and isb(B) and A.value == B.value):
+                    if isb(A) and isb(B):
+                        new = c if A.value else _neg(c)
+                    elif isb(A):
+                        new = ast.BoolOp(op=ast.Or(), values=[c, B]) if A.value else ast.BoolOp(op=ast.And(), values=[_neg(c), B])
+                    else:
+                        new = ast.BoolOp(op=ast.Or(), values=[_neg(c), A]) if B.value else ast.BoolOp(op=ast.And(), values=[c, A])
+                if new is not None:
+                    asg = ast.Assign(targets=[ast.Name(id=f, ctx=ast.Store())], value=new)
+                    ast.copy_location(asg, s)
+                    ast.fix_missing_locations(asg)
+                    out.append(asg)
+                    changed[0] = True
+                    continue
             if isinstance(s, ast.For) and not s.orelse and len(s.body) == 1 and isinstance(s.body[0], ast.If) and not s.body[0].orelse and len(s.body[0].body) == 1 \
                     and isinstance(s.body[0].body[0], ast.Raise) and isinstance(s.target, (ast.Name, ast.Tuple)):
                 tnames = {n.id for n in ast.walk(s.target) if isinstance(n, ast.Name)}
@@ -1230,6 +1323,36 @@ def _local_closures(fn, inliner, cls):
     return False
 
 
+def _forward_temps(fn):
+    """t = E ; TARGET = t      ->  TARGET = E        (adjacent statements; t bound once and read once - by that copy; TARGET may be a global, an
+    attribute or a subscript whose own sub-expressions are effect free)"""
+    info = _FnInfo(fn)
+    for n in ast.walk(fn):
+        for fld in ('body', 'orelse', 'finalbody'):
+            blk = getattr(n, fld, None)
+            if not (isinstance(blk, list) and blk and isinstance(blk[0], ast.stmt)):
+                continue
+            for i in range(len(blk) - 1):
+                a, b = blk[i], blk[i + 1]
+                if not (isinstance(a, ast.Assign) and len(a.targets) == 1 and isinstance(a.targets[0], ast.Name) and isinstance(b, ast.Assign) and len(b.targets) == 1
+                        and isinstance(b.value, ast.Name) and b.value.id == a.targets[0].id):
+                    continue
+                t = a.targets[0].id
+                if info.counts.get(t, 0) != 1 or t in info.params or len(info.loads(t)) != 1:
+                    continue
+                tgt = b.targets[0]
+                if isinstance(tgt, ast.Name):
+                    if tgt.id == t:
+                        continue
+                elif not all(_pure(x) for x in ast.iter_child_nodes(tgt) if isinstance(x, ast.expr)):
+                    continue
+                b.value = a.value
+                del blk[i]
+                ast.fix_missing_locations(fn)
+                return True
+    return False
+
+
 def _coalesce_copies(fn):
     """t = ... (one or more bindings, e.g. one per branch) ; x = t      ->  x = ...
     t is read exactly once - by the copy - and x is bound only by that copy and never read before it: t and x are one variable"""
@@ -1301,6 +1424,8 @@ def simplify_function(fn, ctx, inliner, cls):
         elif _local_closures(fn, inliner, cls):
             changed = True
         elif _coalesce_copies(fn):
+            changed = True
+        elif _forward_temps(fn):
             changed = True
         if not changed:
             break
